@@ -1020,17 +1020,45 @@ func doneChannelRule(p *Prog, r *Report) {
 		c, isC := st.Val.(*ssa.Const)
 		return isC && c.Value != nil && c.Value.ExactString() == val
 	}
+	dropRule := func(fn *ssa.Function, in ssa.Instruction, pos token.Pos) {
+		hit, path := reachAvoiding(fn, in, isReturn, func(i ssa.Instruction) bool { return isFlagStore(i, "false") }, nil)
+		if hit != nil {
+			// the two stores may come in either order: a lowering of the flag that dominates the drop,
+			// with no raising of it in between, is as good
+			for _, bb := range fn.Blocks {
+				for _, i0 := range bb.Instrs {
+					if isFlagStore(i0, "false") && dominatesInstr(i0, in) {
+						if h2, _ := reachAvoiding(fn, i0, func(i ssa.Instruction) bool { return i == in }, func(i ssa.Instruction) bool { return isFlagStore(i, "true") }, nil); h2 != nil {
+							if h3, _ := reachAvoiding(fn, i0, func(i ssa.Instruction) bool { return isFlagStore(i, "true") }, func(i ssa.Instruction) bool { return i == in }, nil); h3 == nil {
+								hit, path = nil, nil
+							}
+						}
+					}
+				}
+			}
+		}
+		r.Check("R6", funcName(fn)+": dropping the Done channel lowers the 'already closed' flag on every path", hit == nil, p.Pos(pos),
+			"s.done is set to nil and a return is reachable without s.doneClosed = false: after the next Serve the flag still says 'closed', so the next Shutdown never closes the new channel and RequestCtx.Done() of in-flight requests stays open", blocksString(p, path)...)
+	}
 	nclose, ndrop := 0, 0
 	for _, fn := range p.funcsIn("") {
 		for _, b := range fn.Blocks {
 			for _, in := range b.Instrs {
 				switch w := in.(type) {
 				case *ssa.Call:
+					// the atomic form of the drop: s.done.Store(nil)
+					if f := w.Call.StaticCallee(); f != nil && f.Name() == "Store" && len(w.Call.Args) == 2 && isNilConst(w.Call.Args[1]) {
+						if fa, ok := w.Call.Args[0].(*ssa.FieldAddr); ok && typeNameOf(fa.X) == "Server" && fieldName(fa.X.Type(), fa.Field) == "done" {
+							ndrop++
+							dropRule(fn, in, w.Pos())
+							continue
+						}
+					}
 					bi, ok := w.Call.Value.(*ssa.Builtin)
 					if !ok || bi.Name() != "close" || len(w.Call.Args) != 1 {
 						continue
 					}
-					if base, fv := loadedField(w.Call.Args[0]); fv == nil || fv.Name() != "done" || typeNameOf(base) != "Server" {
+					if !isServerDoneValue(w.Call.Args[0]) {
 						continue
 					}
 					nclose++
@@ -1054,24 +1082,7 @@ func doneChannelRule(p *Prog, r *Report) {
 						continue
 					}
 					ndrop++
-					hit, path := reachAvoiding(fn, in, isReturn, func(i ssa.Instruction) bool { return isFlagStore(i, "false") }, nil)
-					if hit != nil {
-						// the two stores may come in either order: a lowering of the flag that dominates the drop,
-						// with no raising of it in between, is as good
-						for _, bb := range fn.Blocks {
-							for _, i0 := range bb.Instrs {
-								if isFlagStore(i0, "false") && dominatesInstr(i0, in) {
-									if h2, _ := reachAvoiding(fn, i0, func(i ssa.Instruction) bool { return i == in }, func(i ssa.Instruction) bool { return isFlagStore(i, "true") }, nil); h2 != nil {
-										if h3, _ := reachAvoiding(fn, i0, func(i ssa.Instruction) bool { return isFlagStore(i, "true") }, func(i ssa.Instruction) bool { return i == in }, nil); h3 == nil {
-											hit, path = nil, nil
-										}
-									}
-								}
-							}
-						}
-					}
-					r.Check("R6", funcName(fn)+": dropping the Done channel lowers the 'already closed' flag on every path", hit == nil, p.Pos(w.Pos()),
-						"s.done is set to nil and a return is reachable without s.doneClosed = false: after the next Serve the flag still says 'closed', so the next Shutdown never closes the new channel and RequestCtx.Done() of in-flight requests stays open", blocksString(p, path)...)
+					dropRule(fn, in, w.Pos())
 				}
 			}
 		}
@@ -1576,4 +1587,26 @@ func hijackReadPathRule(p *Prog, r *Report) {
 			bad+": the bytes the client sent together with the hijacking request sit in the buffered reader the wrapper holds; a read that goes to the raw connection skips them (they are lost, or arrive after later bytes)")
 	}
 	r.Floor("R7", "methods of the hijacked-connection wrapper", n, 2)
+}
+
+// isServerDoneValue: v is the channel kept in Server.done - loaded from the field directly, or through the pointer
+// an atomic.Pointer field hands out (*s.done.Load()).
+func isServerDoneValue(v ssa.Value) bool {
+	if base, fv := loadedField(v); fv != nil && fv.Name() == "done" && typeNameOf(base) == "Server" {
+		return true
+	}
+	u, ok := v.(*ssa.UnOp)
+	if !ok || u.Op != token.MUL {
+		return false
+	}
+	c, ok := u.X.(*ssa.Call)
+	if !ok {
+		return false
+	}
+	f := c.Call.StaticCallee()
+	if f == nil || f.Name() != "Load" || len(c.Call.Args) != 1 {
+		return false
+	}
+	fa, ok := c.Call.Args[0].(*ssa.FieldAddr)
+	return ok && typeNameOf(fa.X) == "Server" && fieldName(fa.X.Type(), fa.Field) == "done"
 }
